@@ -740,16 +740,16 @@ protected:
 					if (lsb && (!round && !sticky)) ++fraction; // round to even
 					if (round || sticky) ++fraction;
 				}
-				fraction = (s ? (~fraction + 1) : fraction); // if negative, map to two's complement
 				f.setbits(fraction);
+				if (s) f.twosComplement(); // if negative, map to two's complement in all nbits
 			}
 			else {
 				int shiftLeft = -shiftRight;
 				if (shiftLeft < (64 - ieee754_parameter<Arith>::fbits)) {  // what is the distance between the MSB and 64?
 					// no need to round, just shift the bits in place
 					fraction <<= shiftLeft;
-					fraction = (s ? (~fraction + 1) : fraction); // if negative, map to two's complement
 					f.setbits(fraction);
+					if (s) f.twosComplement(); // if negative, map to two's complement in all nbits
 				}
 				else {
 					// we need to project the bits we have on the fixpnt
